@@ -238,3 +238,173 @@ func contains(l []lalr.Sym, s lalr.Sym) bool {
 	}
 	return false
 }
+
+// AllShiftGrammar builds a grammar with one cell that holds a shift and k >= 2
+// reductions, every one of which loses against the shift by precedence (lower
+// group, or the same %right group), and no other ambiguity:
+//
+//	S: A_1 t | A_2 t t | ... | w t^(k+1) ;   A_i: w [%prec ..]
+//
+// The documented outcome is: shift, no conflict counted.
+func AllShiftGrammar(r *rand.Rand) *lalr.Grammar {
+	g := &lalr.Grammar{Origin: Node(0)}
+	g.Symbols = []string{"eoi"}
+	term := func(name string) lalr.Sym {
+		g.Symbols = append(g.Symbols, name)
+		return lalr.Sym(len(g.Symbols) - 1)
+	}
+	t := term("t")
+	nw := 1 + r.Intn(3)
+	var w []lalr.Sym
+	for i := 0; i < nw; i++ {
+		w = append(w, term(fmt.Sprintf("w%d", i)))
+	}
+	lowA, lowB := term("LOW1"), term("LOW2")
+	g.Terminals = len(g.Symbols)
+	k := 2 + r.Intn(3)
+	S := lalr.Sym(len(g.Symbols))
+	g.Symbols = append(g.Symbols, "S")
+	var A []lalr.Sym
+	for i := 0; i < k; i++ {
+		A = append(A, lalr.Sym(len(g.Symbols)))
+		g.Symbols = append(g.Symbols, fmt.Sprintf("A%d", i))
+	}
+	type proto struct {
+		lhs  lalr.Sym
+		rhs  []lalr.Sym
+		prec lalr.Sym
+	}
+	var ps []proto
+	rep := func(n int) []lalr.Sym {
+		var out []lalr.Sym
+		for i := 0; i < n; i++ {
+			out = append(out, t)
+		}
+		return out
+	}
+	for i := 0; i < k; i++ {
+		ps = append(ps, proto{S, append([]lalr.Sym{A[i]}, rep(i+1)...), 0})
+		p := proto{lhs: A[i], rhs: append([]lalr.Sym{}, w...)}
+		switch r.Intn(3) {
+		case 1:
+			p.prec = lowA
+		case 2:
+			p.prec = lowB
+		}
+		ps = append(ps, p)
+	}
+	ps = append(ps, proto{S, append(append([]lalr.Sym{}, w...), rep(k+1)...), 0})
+	r.Shuffle(len(ps), func(i, j int) { ps[i], ps[j] = ps[j], ps[i] })
+	for i, p := range ps {
+		g.Rules = append(g.Rules, lalr.Rule{LHS: p.lhs, RHS: p.rhs, Precedence: p.prec, Type: -1, Origin: Node(i + 1)})
+	}
+	// precedence: the last terminal of w, LOW1 and LOW2 below t - or in t's own %right group
+	last := w[len(w)-1]
+	if r.Intn(3) == 0 {
+		g.Precedence = []lalr.Precedence{{Associativity: lalr.Right, Terminals: []lalr.Sym{last, lowA, lowB, t}}}
+	} else {
+		lowAssoc := lalr.Associativity(r.Intn(3))
+		if r.Intn(2) == 0 {
+			g.Precedence = []lalr.Precedence{{Associativity: lowAssoc, Terminals: []lalr.Sym{last, lowA}}, {Associativity: lalr.Associativity(r.Intn(3)), Terminals: []lalr.Sym{lowB}}, {Associativity: lalr.Associativity(r.Intn(3)), Terminals: []lalr.Sym{t}}}
+		} else {
+			g.Precedence = []lalr.Precedence{{Associativity: lowAssoc, Terminals: []lalr.Sym{last, lowA, lowB}}, {Associativity: lalr.Associativity(r.Intn(3)), Terminals: []lalr.Sym{t}}}
+		}
+	}
+	g.Inputs = []lalr.Input{{Nonterminal: S, Eoi: true}}
+	return g
+}
+
+// HashCollisionGrammar builds a keyword-table grammar with about a thousand rules
+// in which pairs of states have action rows over the same two terminals whose
+// values differ by (+1, -961): exactly the rows for which the polynomial row hash
+// of lalr/optimize.go (h = h*31 + pos; h = h*31 + val) collides, so the row
+// de-duplication of the displacement packer must tell them apart by value.
+//
+//	S: A_i p_i | D_i q_i | B_i p_i | C_i q_i | K ;  A_i: a_i ; D_i: a_i ; B_i: b_i ; C_i: b_i ; K: <keywords>
+//
+// with rule(B_i) = rule(A_i)+1 and rule(D_i) = rule(C_i)+961.
+func HashCollisionGrammar(r *rand.Rand) *lalr.Grammar {
+	g := &lalr.Grammar{Origin: Node(0)}
+	g.Symbols = []string{"eoi"}
+	term := func(name string) lalr.Sym {
+		g.Symbols = append(g.Symbols, name)
+		return lalr.Sym(len(g.Symbols) - 1)
+	}
+	pairs := 1 + r.Intn(3)
+	y, z := term("y"), term("z")
+	var a, b, p, q []lalr.Sym
+	for i := 0; i < pairs; i++ {
+		a = append(a, term(fmt.Sprintf("a%d", i)))
+		b = append(b, term(fmt.Sprintf("b%d", i)))
+		if i == 0 || r.Intn(2) == 0 {
+			p = append(p, term(fmt.Sprintf("p%d", i)))
+			q = append(q, term(fmt.Sprintf("q%d", i)))
+		} else {
+			p = append(p, p[0])
+			q = append(q, q[0])
+		}
+	}
+	g.Terminals = len(g.Symbols)
+	nt := func(name string) lalr.Sym {
+		g.Symbols = append(g.Symbols, name)
+		return lalr.Sym(len(g.Symbols) - 1)
+	}
+	S, K := nt("S"), nt("K")
+	var A, B, C, D []lalr.Sym
+	for i := 0; i < pairs; i++ {
+		A = append(A, nt(fmt.Sprintf("A%d", i)))
+		B = append(B, nt(fmt.Sprintf("B%d", i)))
+		C = append(C, nt(fmt.Sprintf("C%d", i)))
+		D = append(D, nt(fmt.Sprintf("D%d", i)))
+	}
+	rule := func(lhs lalr.Sym, rhs ...lalr.Sym) {
+		g.Rules = append(g.Rules, lalr.Rule{LHS: lhs, RHS: rhs, Type: -1, Origin: Node(len(g.Rules) + 1)})
+	}
+	// distinct keywords of length 10-11 over {y, z}
+	words := r.Perm(2048)
+	wi := 0
+	keyword := func() {
+		code := words[wi]
+		wi++
+		n := 10
+		if code >= 1024 {
+			n = 11
+			code -= 1024
+		}
+		var rhs []lalr.Sym
+		for k := 0; k < n; k++ {
+			if code&(1<<k) != 0 {
+				rhs = append(rhs, z)
+			} else {
+				rhs = append(rhs, y)
+			}
+		}
+		rule(K, rhs...)
+	}
+	for n := r.Intn(5); n > 0; n-- {
+		keyword()
+	}
+	// A_i, B_i consecutive; then C_i; D_i exactly 961 rules after C_i
+	base := make([]int, pairs)
+	for i := 0; i < pairs; i++ {
+		rule(A[i], a[i])
+		rule(B[i], b[i])
+		base[i] = len(g.Rules)
+		rule(C[i], b[i])
+	}
+	for i := 0; i < pairs; i++ {
+		for len(g.Rules) < base[i]+961 {
+			keyword()
+		}
+		rule(D[i], a[i])
+	}
+	for i := 0; i < pairs; i++ {
+		rule(S, A[i], p[i])
+		rule(S, D[i], q[i])
+		rule(S, B[i], p[i])
+		rule(S, C[i], q[i])
+	}
+	rule(S, K)
+	g.Inputs = []lalr.Input{{Nonterminal: S, Eoi: true}}
+	return g
+}
